@@ -39,7 +39,7 @@
 (* checked over all bounded layouts x edit sequences) and                  *)
 (* TraceListView.tla (validation of recorded executions) re-use them.      *)
 (***************************************************************************)
-EXTENDS Integers, Sequences, FiniteSets, TLC
+EXTENDS Integers, Sequences, FiniteSets, SequencesExt, TLC
 
 SP  == -1
 NL  == -2
@@ -55,10 +55,9 @@ IsBlank(t) == t \in {SP, NL, CT, CTS}
 \* ---- the reference reader -------------------------------------------------
 \* cut s at the tokens satisfying Cut: the (possibly empty) pieces between the cuts
 Pieces(s, Cut(_)) ==
-   LET C      == {i \in 1..Len(s) : Cut(s[i])}
-       Pos(k) == IF k = 0 THEN 0 ELSE IF k > Cardinality(C) THEN Len(s) + 1
-                 ELSE CHOOSE i \in C : Cardinality({j \in C : j <= i}) = k          \* the k-th cut
-   IN [k \in 1..(Cardinality(C) + 1) |-> SubSeq(s, Pos(k - 1) + 1, Pos(k) - 1)]
+   LET cs == SetToSortSeq({i \in 1..Len(s) : Cut(s[i])}, LAMBDA a, b : a < b)      \* the cut positions in order
+       n  == Len(cs)
+   IN [k \in 1..(n + 1) |-> SubSeq(s, (IF k = 1 THEN 0 ELSE cs[k - 1]) + 1, (IF k > n THEN Len(s) + 1 ELSE cs[k]) - 1)]
 NonEmpty(ps) == SelectSeq(ps, LAMBDA p : p # <<>>)
 NoCmt(p)     == SelectSeq(p, LAMBDA t : t # CM)
 Strip(p)     == LET I == {i \in 1..Len(p) : ~IsBlank(p[i])} IN
